@@ -193,6 +193,51 @@ def is_priv_test(t, pol):
 
 
 def guards_priv(guards):
+    """True when the conjunction of the guards cannot hold in User mode: the guard formula is evaluated as a boolean
+    function with the mode predicates fixed to their User-mode values and every other atom free (all assignments tried)."""
+    atoms = []
+
+    def ev(t, val):
+        k = t[0]
+        if k == 'not':
+            return not ev(t[1], val)
+        if k in ('and', 'or'):
+            rs = [ev(x, val) for x in t[1]]
+            return all(rs) if k == 'and' else any(rs)
+        if k == 'const':
+            return bool(t[1])
+        if k == 'rcall' and t[1] == 'current_mode_is_not_user':
+            return False
+        if k == 'rcall' and t[1] == 'current_mode_is_user_or_system':
+            return True
+        if k == 'rcall' and t[1] == 'current_mode_is_hyp':
+            return False
+        if k == 'cmp' and t[1] in ('Eq', 'NotEq') and t[2] in (('flag', 'm'), ('sys', 'cpsr.m')) and t[3][0] == 'const':
+            r = t[3][1] == 0b10000
+            return r if t[1] == 'Eq' else not r
+        key = repr(t)
+        if key not in val:
+            if key not in atoms:
+                atoms.append(key)
+            return False
+        return val[key]
+    formula = [(term, pol) for term, pol, _ in guards]
+
+    def holds(val):
+        return all(ev(term, val) == pol for term, pol in formula)
+    for term, _ in formula:
+        ev(term, {})          # collects the atoms (no short-circuit)
+    names = list(atoms)
+    if len(names) > 12:
+        return _has_priv_syntactic(guards)
+    for mask in range(1 << len(names)):
+        val = {n: bool((mask >> i) & 1) for i, n in enumerate(names)}
+        if holds(val):
+            return False      # reachable in User mode
+    return True
+
+
+def _has_priv_syntactic(guards):
     for term, pol, _ in guards:
         if _has_priv(term, pol):
             return True
